@@ -1,5 +1,6 @@
 //! Oracles shared by the history (U1) and graph (U2) explorations: C01 C02 C05 C11.
 
+use vcommon::lit;
 use scale::Encode;
 use scale_info::{form::MetaForm, Field, MetaType, PortableRegistry, Registry, Type, TypeDef};
 use std::any::TypeId;
@@ -19,7 +20,7 @@ pub fn snapshot(reg: &Registry) -> Snapshot {
 pub fn portable_of(s: &Snapshot) -> PortableRegistry {
     // mirrors `From<Registry>` on a snapshot taken through the public iterator (used where the
     // Registry itself must stay alive); the real conversion is exercised separately
-    PortableRegistry { types: s.iter().map(|(i, t)| scale_info::PortableType::new(*i, t.clone())).collect() }
+    PortableRegistry { types: s.iter().map(|(i, t)| lit::entry(*i, t.clone())).collect() }
 }
 
 /// every MetaType mentioned in a compile-time definition, positionally
